@@ -267,6 +267,14 @@ class AsyncResultWithExceptionGetter(AsyncResult):
         self.wait()
         return self._value
 
+    def _set(self, success: bool, result: Any) -> None:
+        """
+        This result object is reused for as long as the workers live, and it's the most recent error that has to be
+        raised. So, in contrast to the result of a single task, it can be set again.
+        """
+        self._is_set = False
+        super()._set(success, result)
+
     def reset(self) -> None:
         """
         Reset the result object
